@@ -54,6 +54,7 @@ func (fr *Frame) step(ins ssa.Instruction, st *State) {
 	case *ssa.BinOp:
 		fr.setVal(ins, fr.binop(ins.Op, fr.val(ins.X), fr.val(ins.Y), ins.X.Type(), ins, st))
 	case *ssa.Store:
+		fr.storeSite(st, ins)
 		fr.store(st, ins.Addr, fr.val(ins.Val), ins)
 	case *ssa.Call:
 		rs := fr.call(ins, &ins.Call, st)
@@ -87,6 +88,9 @@ func (fr *Frame) step(ins ssa.Instruction, st *State) {
 		}
 	case *ssa.Convert:
 		fr.convert(ins, st)
+	case *ssa.MakeChan:
+		// channels are opaque objects (no goroutines in the verified subset; sends are not modelled)
+		fr.setVal(ins, e.newObj(st))
 	case *ssa.MakeMap:
 		loc := e.newObj(st)
 		mt := ins.Type().Underlying().(*types.Map)
@@ -212,7 +216,7 @@ func localOnly(v ssa.Value) bool {
 	return true
 }
 
-var nonRetaining = []string{"github.com/samber/lo.", "sort.Slice", "sort.SliceStable", "slices.", "k8s.io/client-go/util/workqueue.ParallelizeUntil"}
+var nonRetaining = []string{"github.com/samber/lo.", "sort.Slice", "sort.SliceStable", "slices.", "k8s.io/client-go/util/workqueue.ParallelizeUntil", "k8s.io/client-go/util/retry.OnError"}
 
 func closureKeepsPrivate(mc *ssa.MakeClosure, cell ssa.Value) bool {
 	fn, ok := mc.Fn.(*ssa.Function)
@@ -231,6 +235,11 @@ func closureKeepsPrivate(mc *ssa.MakeClosure, cell ssa.Value) bool {
 				if r.Addr != fv {
 					return false
 				}
+			case *ssa.MakeClosure:
+				// captured again by a nested closure
+				if !closureKeepsPrivate(r, fv) {
+					return false
+				}
 			default:
 				return false
 			}
@@ -239,9 +248,15 @@ func closureKeepsPrivate(mc *ssa.MakeClosure, cell ssa.Value) bool {
 	if mc.Referrers() == nil {
 		return false
 	}
-	for _, r := range *mc.Referrers() {
-		switch r := r.(type) {
+	refs := append([]ssa.Instruction{}, *mc.Referrers()...)
+	for k := 0; k < len(refs); k++ {
+		switch r := refs[k].(type) {
 		case *ssa.DebugRef:
+		case *ssa.ChangeType:
+			// named function type (e.g. workqueue.DoWorkPieceFunc): follow the converted value
+			if r.Referrers() != nil {
+				refs = append(refs, *r.Referrers()...)
+			}
 		case *ssa.Call:
 			if r.Call.Value == mc {
 				continue
@@ -887,4 +902,43 @@ func (fr *Frame) rangeMutationCheck(st *State, m Term, mt *types.Map, k Term, in
 			e.vc.oblige(fr.oblName(fmt.Sprintf("safe.rangemut.%d", e.safeOrd(fr, "rangemut"))), "safety", st.pc, okc, "map mutated during range only at visited keys @ "+fr.posStr(ins))
 		}
 	}
+}
+
+// storeSite: a write to a named struct field is a pseudo call site `store.<Type>.<field>` ($0 = the
+// struct pointer, $1 = the value written) so that contracts can put conditions on when a field changes.
+func (fr *Frame) storeSite(st *State, ins *ssa.Store) {
+	e := fr.eng
+	top := e.topFrame
+	if top == nil || top.con == nil || len(top.con.Sites) == 0 {
+		return
+	}
+	fa, ok := ins.Addr.(*ssa.FieldAddr)
+	if !ok {
+		return
+	}
+	pt, ok := fa.X.Type().Underlying().(*types.Pointer)
+	if !ok {
+		return
+	}
+	nt, ok := types.Unalias(pt.Elem()).(*types.Named)
+	if !ok || nt.Obj().Pkg() == nil {
+		return
+	}
+	stt, ok := nt.Underlying().(*types.Struct)
+	if !ok {
+		return
+	}
+	name := nt.Obj().Pkg().Path() + ".store." + nt.Obj().Name() + "." + stt.Field(fa.Field).Name()
+	hit := false
+	for _, ss := range top.con.Sites {
+		if patMatches(ss.Pattern, name) {
+			hit = true
+		}
+	}
+	if !hit {
+		return
+	}
+	cx := &callCtx{fr: fr, st: st, instr: ins, name: name,
+		args: []Term{fr.val(fa.X), fr.val(ins.Val)}, argVs: []ssa.Value{fa.X, ins.Val}, argTs: []types.Type{fa.X.Type(), ins.Val.Type()}}
+	fr.checkSites(cx)
 }
